@@ -13,16 +13,19 @@ READY = True
 META = {
     "technique": "Lean 4 proof of the depth accounting of every native re-entry of the interpreter (weighted nesting <= limit for all traces) + regenerated cost/site tables + differential runs of recursive program shapes in child processes (2 MiB threads, opt-0/opt-1 debug, release) with measured stack bytes per level",
     "category": "proof",
-    "text": "PARTIAL by nature. Kernel-checked: in the model of Context::{push_frame,incr_depth,decr_depth,check_depth} and of the five native re-entries of eval_impl (macro call, caller(), include/import, block call/self.x()/render_block, super()), every re-entry first passes a checked depth increase of its edge cost (macro MACRO_RECURSION_COST+2, include INCLUDE_RECURSION_COST, block/super 1; constants regenerated from source), the caller's context is restored exactly on return without panic, the sum of edge costs over the native nesting is <= the limit in every reachable state for every mixture of edges, nested activations <= limit, a run with >= limit pending re-entries cannot return ok and ends with 'recursion limit exceeded' at the first attempt that does not fit, and set_recursion_limit clamps to MAX_RECURSION=500. Tied to the code by tables regenerated from vm/mod.rs, vm/context.rs, environment.rs and by running ~2000 (quick) recursive shapes x limits x {main, 2 MiB thread} x build profiles in child processes: model-predicted result and high-water marks of ctx.depth()/nested eval_impl must equal the hook's. NOT proved: the native stack bytes one re-entry consumes; they are measured each run and reported (bytes per level and per depth unit, margin against 2 MiB at limit 500). Known finding: in an unoptimised debug build a block call/super() costs 1 depth unit but ~13.6 KB of stack, so self.block()/super() recursion at limits >= ~150 overflows a 2 MiB thread.",
+    "text": "PARTIAL by nature. Kernel-checked: in the model of Context::{push_frame,incr_depth,decr_depth,check_depth} and of the five native re-entries of eval_impl (macro call, caller(), include/import, block call/self.x()/render_block, super()), every re-entry first passes a checked depth increase of its edge cost (macro MACRO_RECURSION_COST+2, include INCLUDE_RECURSION_COST, block/super 1; constants regenerated from source), the caller's context is restored exactly on return without panic, the sum of edge costs over the native nesting is <= the limit in every reachable state for every mixture of edges, nested activations <= limit, a run with >= limit pending re-entries cannot return ok and ends with 'recursion limit exceeded' at the first attempt that does not fit, and set_recursion_limit clamps to MAX_RECURSION=500. Tied to the code by tables regenerated from vm/mod.rs, vm/context.rs, environment.rs and by running ~2000 (quick) recursive shapes x limits x {main, 2 MiB thread} x build profiles in child processes: model-predicted result and high-water marks of ctx.depth()/nested eval_impl must equal the hook's. NOT proved: the native stack bytes one re-entry consumes; they are measured each run and reported (bytes per level and per depth unit, margin against 2 MiB at limit 500). Every completed nested construct must leave Context::depth() as it found it: depth-neutral noise statements (includes that find nothing, includes/imports that succeed or fail with the error swallowed by a callback, macro calls, call blocks, with/for, render_block/call_macro from functions) sit on every frame of every cycle and in 1000-iteration loops between two depth probes (hook depth_of), proved for the model as missing_include_depth_neutral / failed_include_depth_restored / leave_restores_context and tied to the exit paths of perform_include by a regenerated table. Known finding: in an unoptimised debug build a block call/super() costs 1 depth unit but ~13.6 KB of stack, so self.block()/super() recursion at limits >= ~150 overflows a 2 MiB thread.",
     "design_ref": "DESIGN.md §3 C11",
     "level_note": "The stack bytes per re-entry are MEASURED, NOT PROVED: the theorems bound the number and weighted sum of nested interpreter activations by the recursion limit for every mixture of edges; that this bound keeps the native stack below 2 MiB depends on compiler, profile and target and is only observed (child processes must not die by signal; bytes/level per edge kind and the margin 500 x max(bytes/cost) vs 2 MiB are in the evidence). Trusted: Lean kernel; hand model MJ/Model/Depth.lean of context.rs/vm re-entry bookkeeping (validated differentially: outcome, depth and nesting high-water marks equal on all generated shapes); regex translator lib/tables/c11.py; the verif_hooks counters. Not covered: recursion through user Rust callbacks that start a fresh render, the `stacker` feature, stack use of filters/tests/objects called at the bottom, platforms other than this x86-64 Linux toolchain.",
 }
 
 TABLES = ["MACRO_RECURSION_COST", "INCLUDE_RECURSION_COST", "MAX_RECURSION_ENV", "C11_REENTRY_SITES",
-          "C11_DEPTH_CHECK", "C11_LIMIT_CLAMP"]
+          "C11_DEPTH_CHECK", "C11_LIMIT_CLAMP", "C11_INCLUDE_EXITS", "C11_DECR_DEPTH"]
 TWO_MIB = 2 << 20
+NOISE_NAME = {"0": "none", "1": "include-missing", "2": "include-missing-list", "3": "include", "4": "import", "5": "from-import",
+              "6": "macro-call", "7": "call-block", "8": "with-for", "9": "render_block", "a": "call_macro",
+              "b": "swallowed-missing-include", "c": "swallowed-failing-include"}
 CLASS = {"B": "block-cycle(self.block/super/render_block)", "S": "super-chain", "T": "include-cycle",
-         "M": "macro-cycle", "L": "recursive-loop"}
+         "M": "macro-cycle", "L": "recursive-loop", "N": "depth-neutral-loop"}
 
 
 def build_o0(r):
@@ -66,10 +69,10 @@ def parse_case(case):
 def evaluate(r, profile, lines, model, stats, max_recursion):
     for i, line in enumerate(lines):
         f = line.split("\t")
-        if len(f) != 8:
+        if len(f) != 9:
             r.broken.append(f"harness line not understood ({profile}): {line[:120]}")
             continue
-        case, status, hwd, hwn, topk, rootk, nbytes, over = f
+        case, status, hwd, hwn, topk, rootk, nbytes, over, drift = f
         shape, limit, budget, thread = parse_case(case)
         fam = shape[0]
         cls = CLASS.get(fam, fam)
@@ -85,7 +88,10 @@ def evaluate(r, profile, lines, model, stats, max_recursion):
         if fam in "TMB":
             for e in shape[2:].split(","):
                 r.hist["edge"][fam + ":" + e[0]] += 1
+                r.hist["noise_on_frame"][NOISE_NAME.get(e[4], e[4])] += 1
             r.hist["cycle_len"][len(shape[2:].split(","))] += 1
+        elif fam == "N":
+            r.hist["noise_loop"][shape[2] + ":" + NOISE_NAME.get(shape[3], shape[3])] += 1
         bound = max(min(limit, max_recursion), 1)   # set_recursion_limit clamps to MAX_RECURSION
         crashed = status.startswith(("signal", "exit", "panic"))
         # ---------------------------------------------------------------- oracle (the property)
@@ -97,6 +103,11 @@ def evaluate(r, profile, lines, model, stats, max_recursion):
                 r.oracle_failure(full, f"recursive render failed with {status}, not with the recursion error", f"wrong-error:{cls}")
             if budget == 0 and fam in "TMB" and status != "err:recursion":
                 r.oracle_failure(full, f"unbounded recursion returned {status}", f"unbounded-recursion-not-cut:{cls}")
+            if drift != "-":
+                kind = drift.split(":")[0]
+                r.oracle_failure(full, f"Context::depth() is not restored by a completed nested construct ({drift}): every completed "
+                                       f"include/import/macro/block/with/for must leave the depth as it found it, or the limit does not bound the nesting",
+                                 f"depth-not-restored:{kind}")
             if hwn > bound or hwd > bound:
                 r.oracle_failure(full, f"high-water marks exceed the limit {limit}: depth {hwd}, nested eval_impl {hwn}", f"high-water-exceeds-limit:{cls}")
         # ---------------------------------------------------------------- correspondence
@@ -108,8 +119,8 @@ def evaluate(r, profile, lines, model, stats, max_recursion):
             elif (status, hwd, hwn) != (ms, int(md), int(mn)):
                 r.model_disagreement(full, f"{status} depth={hwd} native={hwn}", f"{ms} depth={md} native={mn}")
         # ---------------------------------------------------------------- measurements
-        if not crashed and budget == 0 and hwd >= 50 and nbytes > 0:
-            key = shape if ("," not in shape and shape.endswith("000")) else f"({fam}: mixed/with work)"
+        if not crashed and budget == 0 and hwd >= 50 and nbytes > 0 and fam != "N":
+            key = shape[:-1] if ("," not in shape and shape.endswith("0000")) else f"({fam}: mixed/with work/noise)"
             if fam == "S":
                 key = "S:super()"
             st = stats[profile]
@@ -132,7 +143,11 @@ def run(r):
     r.rule = ("recursive program shapes: pure cycles of every edge kind (macro, macro with args, call block/caller, include, import, "
               "include through a macro / call block / block / recursive loop, self.block(), captured self.block(), State::render_block, "
               "block through macro, super() inside a block cycle), the same with frame-local work (0..2 with frames, 0..2 for frames, "
-              "filters/set/filter blocks), random mixed cycles of length 2..4 per family, super() chains and recursive for-loops over "
+              "filters/set/filter blocks), every edge kind x every depth-neutral noise statement on its frame (include that finds nothing - single "
+              "and list -, include/import/from-import of a tiny template, macro call, call block, with/for, State::render_block and "
+              "State::call_macro from a function, failing includes whose error a callback swallows) between two depth probes, random mixed "
+              "cycles of length 2..4 per family with noise on every frame, every noise statement 1000 times in a loop at top level / inside an "
+              "include / macro / block / include-in-macro, super() chains and recursive for-loops over "
               "nested data below/at/above the limit; x limits {1,2,10,100,500} (thorough: 1..500 step 7) x {main thread, 2 MiB thread} "
               "x unbounded / two terminating budgets x build profiles; each case in a child process. A case is non-trivial when the "
               "run reaches Context::depth() >= 3 (or dies).")
@@ -145,9 +160,10 @@ def run(r):
     st = r.regen_tables(TABLES)
     max_recursion = st["items"].get("MAX_RECURSION_ENV") or 500
     r.lean_prove("MJ.Props.C11", "MJ/Audit/C11.lean", extra_targets=["drive_c11"])
-    exes = builds(r)
-    if any(v is None for v in exes.values()):
-        return
+    # a broken table / proof / model tie is recorded in r.broken and the run goes on: the harness is
+    # built and the oracle searches for a failing input in any case (correspondence only if the
+    # model driver still builds)
+    exes = {p: e for p, e in builds(r).items() if e is not None}
     stats = {p: {"kinds": {}, "classes": {}, "overhead": 0} for p in exes}
     model = None
     cases_text = None
